@@ -211,6 +211,13 @@ func newSessionWithServerUserPolicy(
 	s.remoteWindowSize.Store(minWindowSize)
 	if policy.Name() != "" {
 		s.userPolicy.Store(&policy)
+		if !isClient {
+			// Register server per user metrics before the session is
+			// visible to the application, which may write to the session
+			// before the first segment is processed.
+			s.uploadBytes = metrics.RegisterMetric(fmt.Sprintf(metrics.UserMetricGroupFormat, policy.Name()), metrics.UserMetricUploadBytes, metrics.COUNTER_TIME_SERIES)
+			s.downloadBytes = metrics.RegisterMetric(fmt.Sprintf(metrics.UserMetricGroupFormat, policy.Name()), metrics.UserMetricDownloadBytes, metrics.COUNTER_TIME_SERIES)
+		}
 	}
 	return s
 }
